@@ -33,6 +33,7 @@ import (
 	"google.golang.org/grpc/connectivity"
 	"google.golang.org/grpc/resolver"
 	"google.golang.org/grpc/status"
+	"google.golang.org/protobuf/proto"
 )
 
 type ssConn struct {
@@ -584,15 +585,49 @@ func TestVerifPoolStress(t *testing.T) {
 				ssQuiescent(out, env, cfgs[5], rng, idx)
 			}
 		default:
-			ssQuiescent(out, env, cfgs[idx%int64(len(cfgs))], rng, idx)
+			cfg := cfgs[idx%int64(len(cfgs))]
+			if (env.Prop == "C06" || env.Prop == "C05") && idx%2 == 1 {
+				// lock-order inversions between completions and refresh take-overs
+				// need many of both: every other run uses the refresh-heavy workload
+				cfg = cfgs[len(cfgs)-1]
+				if idx%4 == 3 {
+					cfg.cp = proto.Clone(cfg.cp).(*pb.ChannelPoolConfig)
+					cfg.cp.FallbackToReady = true
+					cfg.cp.BindPickStrategy = pb.ChannelPoolConfig_ROUND_ROBIN
+					cfg.name = "refresh-heavy+fallback+rr"
+				}
+			}
+			ssQuiescent(out, env, cfg, rng, idx)
 		}
 	}
 	out.write(env.Out)
 }
 
 // ssQuiescent: conservation (C02) and the pool bound (C03) at quiescence.
+// ssInstallYieldSleep: like ssInstallYield, but a fraction of the visits of a
+// lock-acquisition site sleep for a moment: a goroutine that already holds one
+// lock lingers before taking the next one, which is what exposes lock-order
+// inversions.
+func ssInstallYieldSleep(seed uint64, pct uint64) {
+	ssYieldSeed = seed
+	verifYieldFn = func(site string) {
+		var x byte
+		h := vMix(ssYieldSeed ^ vHashString(site) ^ uint64(uintptrOf(&x))>>10 ^ uint64(time.Now().UnixNano()))
+		switch {
+		case h%1000 < 15 && strings.Contains(site, "Lock#"):
+			time.Sleep(time.Duration(100+h%900) * time.Microsecond)
+		case h%100 < pct:
+			runtime.Gosched()
+		}
+	}
+}
+
 func ssQuiescent(out *vOut, env vEnv, cfg ssCfg, rng *vRand, idx int64) {
-	ssInstallYield(uint64(env.Seed)*104729+uint64(idx), 10)
+	if env.Prop == "C06" || env.Prop == "C05" {
+		ssInstallYieldSleep(uint64(env.Seed)*104729+uint64(idx), 10)
+	} else {
+		ssInstallYield(uint64(env.Seed)*104729+uint64(idx), 10)
+	}
 	if env.Prop == "C05" || env.Prop == "C06" {
 		// hostile additions for the totality properties: stale pickers, many
 		// client-side deadline errors (refreshes), factory failures
